@@ -208,6 +208,15 @@ func jobC02(c *rt.Ctx) {
 		if rec.calls != 0 {
 			c.Violation("C02 entropy-read", "PrivateKey.Sign read from its entropy argument", map[string]interface{}{"calls": rec.calls})
 		}
+		if sv.v == ref.Pure && len(msg) == 0 {
+			// a nil message is the empty message
+			check("helper", Sign(priv, nil), nil)
+			sn, en := priv.Sign(nil, nil, opts)
+			check("options", sn, en)
+			if !Verify(PublicKey(priv[32:]), nil, want) || !Verify(PublicKey(priv[32:]), []byte{}, want) {
+				c.Violation("C02 nil-message verify", "the signature over the empty message is not accepted for a nil / empty message", map[string]interface{}{"seed": ref.Hex(seed)})
+			}
+		}
 		if sv.v == ref.Pure {
 			check("helper", Sign(priv, msg), nil)
 			s4, e4 := priv.Sign(rec, msg, crypto.Hash(0))
